@@ -60,6 +60,7 @@ pub struct H {
     pub fault: Mutex<Option<FaultPlan>>,
     pub fault_hits: Mutex<HashMap<String, u64>>,
     pub injected: AtomicU64,
+    pub injected_names: Mutex<Vec<String>>,
     pub crash_at: AtomicI64, // abort at this global fs-point hit (1-based); -1 = never
     pub fs_hits: AtomicU64,
     pub crash_note: Mutex<Option<std::path::PathBuf>>, // file to write "name file" before abort
@@ -98,6 +99,7 @@ pub fn h() -> &'static Arc<H> {
             fault: Mutex::new(None),
             fault_hits: Mutex::new(HashMap::new()),
             injected: AtomicU64::new(0),
+            injected_names: Mutex::new(Vec::new()),
             crash_at: AtomicI64::new(-1),
             fs_hits: AtomicU64::new(0),
             crash_note: Mutex::new(None),
@@ -240,6 +242,7 @@ impl vh::Handler for H {
                     *c += 1;
                     if *c >= plan.from && *c < plan.from + plan.burst {
                         self.injected.fetch_add(1, Ordering::SeqCst);
+                        self.injected_names.lock().unwrap().push(name.to_string());
                         return Err(std::io::Error::new(plan.kind, "injected by verif harness"));
                     }
                 }
